@@ -34,7 +34,8 @@ def counter_forms(rng):
 
 def tail_wrap(rng, call, mode):
     """put `call` (a tail call, already preceded by the counter step) into a documented tail position"""
-    pos = rng.choice(["pipe", "comma-right", "alt-right", "bind", "then", "else", "foreach-proj", "after-def", "comma-out", "nested-if"])
+    pos = rng.choice(["pipe", "comma-right", "alt-right", "bind", "bind-arr", "bind-obj", "then", "else", "foreach-proj", "after-def",
+                      "comma-out", "nested-if"])
     if mode in ("path", "first") and pos in ("comma-out",):
         pos = "pipe"
     if pos == "pipe":
@@ -45,6 +46,10 @@ def tail_wrap(rng, call, mode):
         return pos, "(empty // (probe | %s))" % call
     if pos == "bind":
         return pos, "(probe | . as $bound | %s)" % call
+    if pos == "bind-arr":       # right of a destructuring binding (`.` is unchanged by `as`)
+        return pos, "(probe | [., 1] as [$bound, $one] | %s)" % call
+    if pos == "bind-obj":
+        return pos, "(probe | {a: ., b: [2]} as {a: $bound, b: [$two]} | %s)" % call
     if pos == "then":
         return pos, "(probe | if true then %s else . end)" % call
     if pos == "else":
